@@ -1,0 +1,13 @@
+//! Routing table hooks.
+pub use crate::kbucket::filter::Filter;
+use crate::Enr;
+
+/// The table-level IP filter (at most 10 nodes of one /24 in the table).
+pub fn ip_table_filter() -> Box<dyn Filter<Enr>> {
+    Box::new(crate::kbucket::filter::IpTableFilter)
+}
+
+/// The bucket-level IP filter (at most 2 nodes of one /24 per bucket).
+pub fn ip_bucket_filter() -> Box<dyn Filter<Enr>> {
+    Box::new(crate::kbucket::filter::IpBucketFilter)
+}
